@@ -234,6 +234,24 @@ def gate(mn, S_full, k, tol=TOL, sample=True):
     return None
 
 
+def regressor_gate(X, W, Yh):
+    """The regressor is an oracle with contract Yhat = X W.  When the weights are so large that
+    X W cancels catastrophically (sklearn's LinearRegression on exactly rank-deficient data can
+    return |W| ~ 1e13) the contract cannot be evaluated in binary64: such cases are skipped."""
+    den = max(float(np.abs(Yh).max(initial=0)), 1e-300)
+    if float(np.abs(X).max()) * float(np.abs(W).max(initial=0)) * X.shape[1] > 1e6 * den:
+        return "regressor weights ill conditioned (cancellation in X W)"
+    return None
+
+
+def w_in_rowspace(X, W):
+    """Are the regression weights in the row space of X?  (Ridge and minimum-norm least squares
+    are; sklearn's LinearRegression on centred wide data need not be.)  Only then are the
+    sample-space projectors - which contain W - route independent on NEW data."""
+    Pi = np.linalg.pinv(X) @ X
+    return float(np.abs(W - Pi @ W).max(initial=0)) <= 1e-9 * (1 + float(np.abs(W).max(initial=0)))
+
+
 def rel_gap(S_full, k, tol=TOL):
     S = np.asarray(S_full)
     r = int(np.sum(S[:k] > tol))
@@ -262,15 +280,18 @@ def build_env(ds, Ymodel, Yh, W, cfg, sample, mn=None, Q=None):
 
 # ------------------------------------------------------------------------------ Coq writer
 class CoqCases:
-    """Accumulates `pcase` definitions, interning every distinct matrix once per shard."""
+    """Accumulates `pcase` definitions (named c<id>), interning every distinct matrix once per
+    shard.  `extra` terms (of one common Coq type) may refer to the cases of the current shard
+    by name; they are evaluated by a second `Eval` as one list."""
 
-    def __init__(self, max_bytes=280000, max_cases=300):
-        self.max_bytes, self.max_cases = max_bytes, max_cases
-        self.shards = []          # list of (text, [case ids])
+    def __init__(self, max_bytes=280000, max_cases=300, autoflush=True):
+        self.max_bytes, self.max_cases, self.autoflush = max_bytes, max_cases, autoflush
+        self.shards = []          # list of (text, [case ids], [extra tags])
         self._reset()
 
     def _reset(self):
         self.defs, self.names, self.cases, self.ids, self.size = [], {}, [], [], 0
+        self.extras, self.extra_tags = [], []
 
     def mat(self, A):
         A = np.atleast_2d(np.asarray(A, dtype=float))
@@ -284,26 +305,41 @@ class CoqCases:
             self.names[key] = name
         return self.names[key]
 
+    def mats(self, As):
+        return "[" + "; ".join(self.mat(A) for A in As) + "]"
+
     def add(self, cid, n, m, p, k, q, sample, env, obs):
-        txt = "(mk_pcase %d %d %d %d %d %s [%s] [%s])" % (
-            n, m, p, k, q, "true" if sample else "false",
-            "; ".join(self.mat(e) for e in env), "; ".join(self.mat(o) for o in obs))
-        self.cases.append(txt)
+        d = "Definition c%d : pcase := mk_pcase %d %d %d %d %d %s %s %s.\n" % (
+            cid, n, m, p, k, q, "true" if sample else "false", self.mats(env), self.mats(obs))
+        self.defs.append(d)
+        self.cases.append("c%d" % cid)
         self.ids.append(cid)
-        self.size += len(txt)
+        self.size += len(d)
+        if self.autoflush:
+            self.maybe_flush()
+        return "c%d" % cid
+
+    def add_extra(self, tag, term):
+        self.extras.append(term)
+        self.extra_tags.append(tag)
+        self.size += len(term)
+
+    def maybe_flush(self):
         if self.size > self.max_bytes or len(self.cases) >= self.max_cases:
             self.flush()
 
-    def flush(self, extra=""):
-        if not self.cases:
+    def flush(self):
+        if not self.cases and not self.extras:
             return
         body = (C.SHARD_HEAD + "From Coq Require Import List PrimFloat.\nImport ListNotations.\n"
                 "From Verif Require Import MExp PCovR.\nOpen Scope float_scope.\n"
                 + "".join(self.defs)
-                + "Definition cases : list pcase := [\n " + ";\n ".join(self.cases) + "].\n"
+                + "Definition cases : list pcase := [" + "; ".join(self.cases) + "].\n"
                 + "Eval vm_compute in (map (pc_report %s %s %s) cases).\n"
-                % (C.fl(RTOL), C.fl(ATOL), C.fl(EPS_HYP)) + extra)
-        self.shards.append((body, list(self.ids)))
+                % (C.fl(RTOL), C.fl(ATOL), C.fl(EPS_HYP)))
+        if self.extras:
+            body += "Eval vm_compute in ([\n " + ";\n ".join(self.extras) + "]).\n"
+        self.shards.append((body, list(self.ids), list(self.extra_tags)))
         self._reset()
 
 
@@ -345,18 +381,22 @@ def parse_evals(out):
 
 
 def run_cases(prop, writer, timeout=900):
-    """Run all shards; returns ({case id: report}, [broken shard outputs], extra values)."""
+    """Run all shards; returns ({case id: report}, [broken shard outputs], {extra tag: value})."""
     writer.flush()
-    outs = C.run_shards(prop, [s for s, _ in writer.shards], timeout=timeout)
-    reports, broken, extras = {}, [], []
-    for (txt, ids), (rc, out) in zip(writer.shards, outs):
+    outs = C.run_shards(prop, [s[0] for s in writer.shards], timeout=timeout)
+    reports, broken, extras = {}, [], {}
+    for (txt, ids, tags), (rc, out) in zip(writer.shards, outs):
         vals = parse_evals(out) if rc == 0 else []
-        if rc != 0 or not vals or vals[0] is None or len(vals[0]) != len(ids):
+        want = 1 + (1 if tags else 0)
+        if rc != 0 or len(vals) != want or any(v is None for v in vals) or len(vals[0]) != len(ids) \
+                or (tags and len(vals[1]) != len(tags)):
             broken.append(out[-1500:])
             continue
         for cid, rep in zip(ids, vals[0]):
             reports[cid] = dict(ok_out=rep[0], ok_hyp=rep[1], dev=rep[2], res=rep[3])
-        extras.append(vals[1:])
+        if tags:
+            for tag, v in zip(tags, vals[1]):
+                extras[tag] = v
     return reports, broken, extras
 
 
